@@ -423,19 +423,18 @@ pub fn crypto_secretstream_xchacha20poly1305_pull(
     cipher.seek(64);
     cipher.apply_keystream(&mut block);
 
-    *tag = block[0];
+    let decrypted_tag = block[0];
     block[0] = ciphertext[0];
 
     mac.update(&block);
 
     let mlen = ciphertext.len() - CRYPTO_SECRETSTREAM_XCHACHA20POLY1305_ABYTES;
-    message[..mlen].copy_from_slice(&ciphertext[1..1 + mlen]);
 
     // this is to workaround an unfortunate padding bug in libsodium, there's a
     // note in commit 290197ba3ee72245fdab5e971c8de43a82b19874. There's no
     // safety issue, so we can just pretend it's not a bug.
     let buffer_mac_pad = ((0x10 - block.len() as i64 + mlen as i64) & 0xf) as usize;
-    mac.update(&message[..mlen]);
+    mac.update(&ciphertext[1..1 + mlen]);
     mac.update(&_pad0[..buffer_mac_pad]);
 
     let mut size_data = [0u8; 16];
@@ -444,12 +443,15 @@ pub fn crypto_secretstream_xchacha20poly1305_pull(
     mac.update(&size_data);
     let mac = mac.finalize_to_array();
 
-    cipher.seek(128);
-    cipher.apply_keystream(&mut message[..mlen]);
-
     if ciphertext[1 + mlen..].ct_eq(&mac).unwrap_u8() == 0 {
         return Err(dryoc_error!("Message authentication mismatch"));
     }
+
+    // the ciphertext is authentic: only now release the tag and the message
+    *tag = decrypted_tag;
+    message[..mlen].copy_from_slice(&ciphertext[1..1 + mlen]);
+    cipher.seek(128);
+    cipher.apply_keystream(&mut message[..mlen]);
 
     let inonce = state_inonce(&mut state.nonce);
     xor_buf(inonce, &mac);
